@@ -27,6 +27,9 @@ type Opt struct {
 	// files, a hidden file, a lost+found sub-directory), created before the first Open
 	OddDir  bool `json:"oddDir,omitempty"`
 	Sidecar bool `json:"sidecar,omitempty"`
+	// Spelling (first configuration only): 1 = the directory is named through a path that is not clean
+	// ("…/db/../db"), 2 = the name is a symbolic link to the real directory, in every session of the history alike
+	Spelling int `json:"spelling,omitempty"`
 }
 
 // DirName returns the name of the data directory of a history that starts with configuration o.
@@ -39,6 +42,14 @@ func (o Opt) DirName() string {
 
 // PrepareDir creates the foreign files of a history that starts with configuration o.
 func (o Opt) PrepareDir(dir string) {
+	switch o.Spelling {
+	case 1:
+		_ = os.MkdirAll(dir, 0o755) // "…/db/../db" only resolves once db exists
+	case 2:
+		// dir itself is the symbolic link; the harness uses that spelling everywhere, as the application would
+		_ = os.MkdirAll(dir+".real", 0o755)
+		_ = os.Symlink(filepath.Base(dir)+".real", dir)
+	}
 	if !o.Sidecar {
 		return
 	}
@@ -49,6 +60,9 @@ func (o Opt) PrepareDir(dir string) {
 }
 
 func (o Opt) KV(dir string) kv.Options {
+	if o.Spelling == 1 {
+		dir = dir + "/../" + filepath.Base(dir)
+	}
 	if o.Slash {
 		dir += "/"
 	}
@@ -75,6 +89,9 @@ func (o Opt) String() string {
 	}
 	if o.Sidecar {
 		s += "/foreign-files"
+	}
+	if o.Spelling > 0 {
+		s += fmt.Sprintf("/spelling%d", o.Spelling)
 	}
 	return s
 }
@@ -129,6 +146,9 @@ func GenOpt(t *rapid.T, label string, p OptProfile) Opt {
 	if p.OddDirs {
 		o.OddDir = Pct(t, 6, label+".odddir")
 		o.Sidecar = Pct(t, 8, label+".sidecar")
+		if Pct(t, 10, label+".spelling") {
+			o.Spelling = 1 + U(t, 2, label+".spellingkind")
+		}
 	}
 	return o
 }
